@@ -68,7 +68,7 @@ func (g *Gen) genForeign() *FImg {
 	f.DOff = pick(r, []int64{128, 200, 4096, 4096, 4097})
 	f.DSize = 585*int64(n) + int64(pick(r, []int{0, 0, 7, 585, 1000}))
 	f.DataOff = f.DOff + f.DSize + int64(pick(r, []int{0, 0, 592, 13}))
-	if r.Chance(1, 12) {
+	if r.Chance(1, 8) {
 		f.TableBehind, f.WellFormed = true, false
 		f.DataOff = int64(pick(r, []int{128, 128, 512, 4096}))
 	}
@@ -206,7 +206,7 @@ func (g *Gen) genForeign() *FImg {
 	// leftover bytes in unused slots
 	for i, u := range used {
 		if !u && (r.Chance(1, 2) || g.partHeavy) {
-			f.Descs[i] = FDesc{Used: false, DT: pick(r, dataTypes), ID: uint32(r.Intn(9)), GID: uint32(r.U64()), Link: uint32(r.U64()),
+			f.Descs[i] = FDesc{Used: false, DT: pick(r, dataTypes), ID: leftoverID(r.Intn(9), i), GID: uint32(r.U64()), Link: uint32(r.U64()),
 				Off: int64(r.Intn(100000)), Size: int64(r.Intn(1000)), SizePad: int64(r.Intn(1000)), CT: int64(r.Intn(1 << 30)), MT: int64(r.Intn(1 << 30)),
 				UID: int64(r.Intn(3)), GIDow: int64(r.Intn(3)), Name: r.Bytes(r.Intn(129)), Extra: r.Bytes(r.Intn(385))}
 			if r.Chance(1, 3) || g.partHeavy {
@@ -272,3 +272,12 @@ func (g *Gen) badMagicVersion(f *FImg) {
 }
 
 func foreignPath(dir string, seq int) string { return filepath.Join(dir, fmt.Sprintf("foreign%d.sif", seq)) }
+
+// leftoverID: the ID field an unused slot still holds — any small number, or (half of the time) the
+// number the slot's position implies, as after a delete that cleared only the in-use flag
+func leftoverID(x, slot int) uint32 {
+	if x%2 == 1 {
+		return uint32(slot + 1)
+	}
+	return uint32(x)
+}
